@@ -208,6 +208,80 @@ theorem before_trading_rule_not_at_bars (cfg : SchedCfg) : ∀ (bars : List Nat)
   | m :: rest, last => by
     simp [dayFirings.go, timeRuleHolds, before_trading_rule_not_at_bars cfg rest m]
 
+/-! ### Trading sessions after a universe change -/
+
+theorem inRanges_append (a b : List (Nat × Nat)) (n : Nat) :
+    inRanges (a ++ b) n = (inRanges a n || inRanges b n) := by
+  simp [inRanges, List.any_append]
+
+/-- **the stock session survives every universe change**: with a stock account configured, a minute of the stock baseline
+session is a trading minute whatever instruments (futures with their own hours, ...) are subscribed -/
+theorem stock_session_kept (hs : List (List (Nat × Nat))) (n : Nat) (h : inRanges stockBaseline n = true) :
+    inRanges (universeRanges true hs) n = true := by
+  simp [universeRanges, inRanges_append, h]
+
+/-- the hours of every universe member count -/
+theorem member_hours_count (b : Bool) (hs : List (List (Nat × Nat))) (h : List (Nat × Nat)) (hm : h ∈ hs) (n : Nat)
+    (hn : inRanges h n = true) : inRanges (universeRanges b hs) n = true := by
+  simp only [universeRanges, inRanges_append, Bool.or_eq_true]
+  left
+  simp only [inRanges, List.any_eq_true, List.mem_flatten] at *
+  obtain ⟨r, hr, hrn⟩ := hn
+  exact ⟨r, ⟨h, hm, hr⟩, hrn⟩
+
+/-- and nothing else does: without a stock account a trading minute belongs to some member's hours; with one, to a
+member's hours or the baseline -/
+theorem ranges_exact (b : Bool) (hs : List (List (Nat × Nat))) (n : Nat) :
+    inRanges (universeRanges b hs) n = true ↔ (∃ h ∈ hs, inRanges h n = true) ∨ (b = true ∧ inRanges stockBaseline n = true) := by
+  simp only [universeRanges, inRanges_append, Bool.or_eq_true]
+  constructor
+  · rintro (h | h)
+    · left
+      simp only [inRanges, List.any_eq_true, List.mem_flatten] at *
+      obtain ⟨r, ⟨l, hl, hr⟩, hrn⟩ := h
+      exact ⟨l, hl, r, hr, hrn⟩
+    · right
+      cases b
+      · simp [inRanges] at h
+      · exact ⟨rfl, by simpa using h⟩
+  · rintro (⟨l, hl, h⟩ | ⟨hb, h⟩)
+    · left
+      simp only [inRanges, List.any_eq_true, List.mem_flatten] at *
+      obtain ⟨r, hr, hrn⟩ := h
+      exact ⟨r, ⟨l, hl, hr⟩, hrn⟩
+    · right; subst hb; simpa using h
+
+/-- daily frequency: at the bar a time rule holds exactly when its minute lies in the current ranges; so a rule inside the
+stock session fires on every day its day rule holds, whatever was subscribed -/
+theorem daily_bar_rule_iff_in_ranges (cfg : SchedCfg) (c : SchedClock) (n : Nat) (h1 : cfg.freq1d = true) (hbt : c.stageBT = false) :
+    shouldTrigger cfg c n = inRanges cfg.ranges n := by
+  unfold shouldTrigger inRanges
+  cases h : cfg.ranges.any (fun r => r.1 ≤ n && n ≤ r.2) <;> simp [h1, hbt]
+
+theorem daily_stock_session_rule_fires (hs : List (List (Nat × Nat))) (start n : Nat) (c : SchedClock) (hbt : c.stageBT = false)
+    (h : inRanges stockBaseline n = true) :
+    shouldTrigger { freq1d := true, ranges := universeRanges true hs, startMinute := start } c n = true := by
+  rw [daily_bar_rule_iff_in_ranges _ _ _ rfl hbt]
+  exact stock_session_kept hs n h
+
+/-- `_start_minute` never decreases at a universe change -/
+theorem start_minute_monotone (start0 : Nat) (hs : List (List (Nat × Nat))) : start0 ≤ universeStartMinute start0 hs := by
+  unfold universeStartMinute
+  induction hs generalizing start0 with
+  | nil => simp
+  | cons h t ih =>
+    simp only [List.foldl_cons]
+    cases h with
+    | nil => exact ih start0
+    | cons r _ => exact Nat.le_trans (Nat.le_max_right _ _) (ih _)
+
+/-- non-vacuity: a future trading 09:01-10:15, 10:31-11:30, 13:31-15:00 subscribed next to a stock account: 10:20 (in the
+future's break, inside the stock session) and 09:10 (before the stock session, inside the future's) are both trading minutes;
+12:00 is not -/
+example : let rs := universeRanges true [[(541, 615), (631, 690), (811, 900)]]
+    inRanges rs 620 = true ∧ inRanges rs 550 = true ∧ inRanges rs 720 = false ∧
+    inRanges (universeRanges false [[(541, 615), (631, 690), (811, 900)]]) 620 = false := by decide
+
 /-! ### Phases of scheduled functions (regenerated from the source) -/
 
 /-- functions with the `before_trading` rule run in phase BEFORE_TRADING (where order APIs are refused, C08),
